@@ -520,9 +520,12 @@ func runC07Steady(c *Ctx) {
 		}
 		jobs := make([][]job, G)
 		for g := 0; g < G; g++ {
-			for r := 0; r < 3; r++ {
+			for r := 0; r < 24; r++ {
 				v := concValue(g, r)
-				if r == 2 {
+				// the interned field sees a new string in (almost) every job: the table grows while
+				// the other goroutines read it
+				v.S = fmt.Sprintf("g%d-interned-%d", g, r/2)
+				if r%3 == 2 {
 					v.R = []ConcShared{concValue(g, 0), concValue(g, 1)}
 				}
 				data, err := ref.Marshal(nil, &v)
@@ -538,6 +541,7 @@ func runC07Steady(c *Ctx) {
 				jobs[g] = append(jobs[g], job{data, want})
 			}
 		}
+		c.crumb(fmt.Sprintf("steady-state concurrent use: %d goroutines, each decoding / encoding its own ConcShared values (maps in both forms, struct keys, an interned field meeting new strings, repeated slices) on one instance, trial %d", G, trial))
 		// the codecs are built before the goroutines start: this phase is about use, not first use
 		var warm ConcShared
 		p.Unmarshal(jobs[0][0].data, &warm)
